@@ -100,8 +100,14 @@ func (d *c06Drv) Query(l map[string]string) ([]*rspb.Release, error) {
 	rs, err := d.inner.Query(l)
 	return c06Clones(rs), err
 }
-func (d *c06Drv) Create(k string, r *rspb.Release) error { d.w(); return d.inner.Create(k, c06Clone(r)) }
-func (d *c06Drv) Update(k string, r *rspb.Release) error { d.w(); return d.inner.Update(k, c06Clone(r)) }
+func (d *c06Drv) Create(k string, r *rspb.Release) error {
+	d.w()
+	return d.inner.Create(k, c06Clone(r))
+}
+func (d *c06Drv) Update(k string, r *rspb.Release) error {
+	d.w()
+	return d.inner.Update(k, c06Clone(r))
+}
 func (d *c06Drv) Delete(k string) (*rspb.Release, error) { d.w(); return d.inner.Delete(k) }
 
 // ---- kube client: the real one; only reachability and waiting are stubbed ----
